@@ -15,7 +15,17 @@ import (
 	"gosmt/sym"
 )
 
-const verifRoot = "/verif"
+var verifRoot = func() string {
+	if r := os.Getenv("VERIF_ROOT"); r != "" {
+		return r
+	}
+	if wd, err := os.Getwd(); err == nil {
+		if _, err := os.Stat(filepath.Join(wd, "checks.json")); err == nil {
+			return wd
+		}
+	}
+	return "/verif"
+}()
 
 type entryCfg struct {
 	Name         string         `json:"name"`
